@@ -420,6 +420,17 @@ fn merge_array_into_array8(dst_array8: &mut Array8, dst_lg_k: u8, src_mode: &Mod
 }
 
 /// Extract HIP accumulator from an array mode
+fn get_array_out_of_order(mode: &Mode) -> bool {
+    match mode {
+        Mode::Array8(src) => src.is_out_of_order(),
+        Mode::Array6(src) => src.is_out_of_order(),
+        Mode::Array4(src) => src.is_out_of_order(),
+        Mode::List { .. } | Mode::Set { .. } => {
+            unreachable!("get_array_out_of_order called with non-array mode");
+        }
+    }
+}
+
 fn get_array_hip_accum(mode: &Mode) -> f64 {
     match mode {
         Mode::Array8(src) => src.hip_accum(),
@@ -572,10 +583,13 @@ fn copy_or_downsample(src_mode: &Mode, src_lg_k: u8, tgt_lg_k: u8) -> Array8 {
     if src_lg_k <= tgt_lg_k {
         let mut result = Array8::new(src_lg_k);
         let src_hip = get_array_hip_accum(src_mode);
+        let src_ooo = get_array_out_of_order(src_mode);
 
         match src_mode {
             Mode::Array8(src) => {
                 result.merge_array_same_lgk(src.values());
+                result.set_hip_accum(src_hip);
+                return result;
             }
             Mode::Array6(src) => {
                 copy_array46_via_coupons(&mut result, src.num_registers(), |slot| src.get(slot));
@@ -590,7 +604,9 @@ fn copy_or_downsample(src_mode: &Mode, src_lg_k: u8, tgt_lg_k: u8) -> Array8 {
             }
         }
 
-        result.set_hip_accum(src_hip);
+        // An out-of-order source has no valid HIP accumulator: the copy must stay out of order
+        // instead of reporting the source's (zeroed) accumulator as its estimate.
+        result.set_estimator_state(src_hip, src_ooo);
         result
     } else {
         // Downsample from src to tgt
